@@ -813,7 +813,8 @@ impl Paragraph {
 
     /// Remove the given field from the paragraph.
     pub fn remove(&mut self, key: &str) {
-        for mut entry in self.entries() {
+        // Collect first: detaching an entry while iterating over its siblings ends the iteration
+        for mut entry in self.entries().collect::<Vec<_>>() {
             if entry.key().as_deref() == Some(key) {
                 entry.detach();
             }
